@@ -35,7 +35,7 @@ def build_harness(wd, prop, sanitize=True):
     for f in ["config.c", "log.c", "set.c", "common.c", "bitset.c", "accumulators.c", "git-version.c"]:
         srcs.append(os.path.join(r, "src", f))
     path, log = core.compile_c(wd, "h_proto" if sanitize else "h_proto_plain", srcs, sanitize=sanitize,
-                               libs=["-levent", "-lm", "-Wl,--wrap=event_new,--wrap=event_free,--wrap=event_base_once"])
+                               libs=["-levent", "-lm", "-Wl,--wrap=event_new,--wrap=event_free,--wrap=event_base_once,--wrap=malloc"])
     if path:
         os.makedirs(os.path.join(wd, "run"), exist_ok=True)
     return path, log
@@ -1121,10 +1121,43 @@ def gen_cases(prop, tier, seed):
             else:
                 ids = rng.sample([1, 2, 5, 7, 300, 65535], rng.choice([2, 3, 4]))
             scripts = {cid: client_script(rng, cid, cfg, mods) for cid in ids}
+            if i % 5 == 4:
+                # per-client module state: a rule that asks whether a service vouched, clients of which
+                # one is vouched for and the next hears that the service is gone (or hears nothing until
+                # the timer lets it in).  What the later client is told must not depend on the earlier
+                # one having been there (seeded change C07-5: state block from malloc, one field unset)
+                mods = "class"
+                svc = rng.choice(["drone.srv", "login.srv"])
+                cfg = Cfg(timeout=30, services=[(svc, "dronecheck" if svc == "drone.srv" else "login")],
+                          rules=[("a", [("class", "cls-a"), ("xreply_ok", svc)]), ("b", [("class", "users")])])
+                ids = rng.sample([1, 2, 5, 7, 300, 65535], rng.choice([2, 3]))
+                scripts = {}
+                for n_, cid in enumerate(ids):
+                    ev = [("C", rng.choice(CADDRS), "1234"), ("line", "N host.example"), ("line", "u ident"),
+                          ("line", "n nick"), ("line", "U user :real name")]
+                    if svc == "login.srv":
+                        ev.insert(rng.randint(1, len(ev)), ("line", "P :+x acct pass"))
+                    fate = "ok" if n_ == 0 else rng.choice(["gone", "silent", "ok", "no"])
+                    if fate == "ok":
+                        ev.append(("reply", "X", svc, "OK acct" if svc == "login.srv" else "OK", "cur"))
+                    elif fate == "gone":
+                        ev.append(("reply", "x", svc, "unlinked", "cur"))
+                    elif fate == "no":
+                        ev.append(("reply", "X", svc, "NO not welcome", "cur"))
+                    else:
+                        ev.append(("timeout",))
+                    ev.append(("line", "H"))
+                    scripts[cid] = ev
             # C07 quantifies over clients on distinct ids whose own order is preserved
             for k in range(2 if quick else 4):
                 ops = header(mods, cfg) + render_schedule(rng, scripts) + ["eof"]
                 cases.append(Case("c07/%d/all%d" % (i, k), ops, tags={"group": "c07/%d" % i, "role": "all", "mods": mods}))
+            if i % 5 == 4:
+                # one client after the other, each finished before the next is announced
+                ops = header(mods, cfg)
+                for cid in ids:
+                    ops += render_schedule(rng, {cid: scripts[cid]})
+                cases.append(Case("c07/%d/seq" % i, ops + ["eof"], tags={"group": "c07/%d" % i, "role": "all", "mods": mods}))
             for cid in ids:
                 ops = header(mods, cfg) + render_schedule(rng, {cid: scripts[cid]}) + ["eof"]
                 cases.append(Case("c07/%d/only%d" % (i, cid), ops, tags={"group": "c07/%d" % i, "role": "only", "cid": cid, "mods": mods}))
